@@ -15,16 +15,41 @@ package main
 // that is not hexadecimal gives an error and no panic; a geometry wkb.Encode refuses is refused.
 
 import (
+	"encoding/binary"
+	"encoding/hex"
 	"fmt"
+	"math"
 	"go/token"
 	"go/types"
 	"strings"
 )
 
-const (
-	hexStreamBytes = "<stream>"
-	hexStreamText  = "<hex of stream>"
-)
+// wkbBytes serialises a stream of items: the float of rank r is written as the number r + 0.5
+// (every rank gets a bit pattern of its own, none of them symmetric under byte reversal).
+func wkbBytes(items []wkbItem) ([]byte, bool) {
+	var out []byte
+	for _, it := range items {
+		var b []byte
+		switch it.kind {
+		case "U8":
+			out = append(out, byte(it.val))
+			continue
+		case "U32":
+			b = binary.BigEndian.AppendUint32(nil, uint32(it.val))
+		case "F64":
+			b = binary.BigEndian.AppendUint64(nil, math.Float64bits(float64(it.val)+0.5))
+		default:
+			return nil, false
+		}
+		if it.order == "L" {
+			for i, j := 0, len(b)-1; i < j; i, j = i+1, j-1 {
+				b[i], b[j] = b[j], b[i]
+			}
+		}
+		out = append(out, b...)
+	}
+	return out, true
+}
 
 func c05hex(c *Ctx, rule string) {
 	enc, dec := c.P.Func("encoding/hex", "Encode"), c.P.Func("encoding/hex", "Decode")
@@ -42,7 +67,10 @@ func c05hex(c *Ctx, rule string) {
 	bytesT := types.NewSlice(types.Typ[types.Byte])
 	errV := oIface{opaque: &oOpaque{name: "error", isError: true}}
 	inner := w.m.it.stub
-	pure := &shpModel{}
+	pure := &shpModel{errV: errV}
+	// the bytes of the message of the current case and their hexadecimal text
+	var hexStreamBytes, hexStreamText string
+	var hexDecoder bool // a hex.NewDecoder was created: readers over the text are its input
 	var notes []string
 	var readerOver []string // what the readers of the decode phase were created over
 	var hexSink oval        // the writer a hex.NewEncoder was created over
@@ -66,7 +94,6 @@ func c05hex(c *Ctx, rule string) {
 			if delegate.refuse {
 				return []oval{oSlice{typ: bytesT}, errV}, true
 			}
-			w.stream = append([]wkbItem{}, delegate.ref...)
 			return []oval{strVal(bytesT, hexStreamBytes), oNil{}}, true
 		case delegate.on && f == wdec && len(args) == 1:
 			s, ok := strOf(args[0])
@@ -79,34 +106,41 @@ func c05hex(c *Ctx, rule string) {
 			}
 			w.pos = len(w.stream)
 			return []oval{delegate.decoded, oNil{}}, true
-		case full == "encoding/hex.EncodeToString" && len(args) == 1:
-			if s, ok := strOf(args[0]); ok && s == hexStreamBytes {
-				return []oval{strVal(strT, hexStreamText)}, true
-			}
-			notes = append(notes, "EncodeToString is given "+showVal(args[0])+", not the bytes wkb.Encode returned")
-			return []oval{strVal(strT, "<hex of something else>")}, true
-		case full == "encoding/hex.DecodeString" && len(args) == 1:
-			if s, ok := strOf(args[0]); ok && s == hexStreamText {
-				return []oval{strVal(bytesT, hexStreamBytes), oNil{}}, true
-			}
-			return []oval{oSlice{typ: bytesT}, errV}, true
 		case full == "encoding/hex.NewEncoder" && len(args) == 1:
 			// a writer that puts the hexadecimal text of what it is given into its sink: the stream
 			// model records the bytes, the sink is remembered
 			hexSink = args[0]
 			return []oval{oIface{opaque: &oOpaque{name: "stream", methods: []string{"Read", "Write", "Len"}}}}, true
-		case (full == "(*strings.Builder).String" || full == "(*bytes.Buffer).String") && hexSink != nil:
+		case full == "encoding/hex.NewDecoder" && len(args) == 1:
+			hexDecoder = true
+			return []oval{oIface{opaque: &oOpaque{name: "stream", methods: []string{"Read", "Write", "Len"}}}}, true
+		case (full == "(*strings.Builder).String" || full == "(*bytes.Buffer).String" || full == "(*bytes.Buffer).Bytes") && hexSink != nil:
 			if same, ok := oEqual(hexSink, recv); ok && same || sameCell(hexSink, recv) {
-				return []oval{strVal(strT, hexStreamText)}, true
+				// what the encoder was given so far, as text
+				raw, ok := wkbBytes(w.written())
+				if !ok {
+					return []oval{oTop{"hexadecimal text of the incomplete stream " + showItems(w.written())}}, true
+				}
+				if strings.HasSuffix(full, "Bytes") {
+					return []oval{strVal(bytesT, hex.EncodeToString(raw))}, true
+				}
+				return []oval{strVal(strT, hex.EncodeToString(raw))}, true
 			}
 		case full == "fmt.Sprintf" && len(args) >= 2:
 			if s, ok := strOf(args[0]); ok && s == "%x" {
 				if sl, ok := args[1].(oSlice); ok && sl.length() == 1 {
-					if b, ok := strOf(elemDyn(sl.at(0))); ok && b == hexStreamBytes {
-						return []oval{strVal(strT, hexStreamText)}, true
+					if b, ok := strOf(elemDyn(sl.at(0))); ok {
+						return []oval{strVal(strT, hex.EncodeToString([]byte(b)))}, true
 					}
 				}
 			}
+		case full == "strings.NewReader" && len(args) == 1:
+			if s, ok := strOf(args[0]); ok {
+				readerOver = append(readerOver, "text:"+s)
+			} else {
+				readerOver = append(readerOver, showVal(args[0]))
+			}
+			return []oval{oIface{opaque: &oOpaque{name: "stream", methods: []string{"Read", "Write", "Len"}}}}, true
 		case (full == "bytes.NewBuffer" || full == "bytes.NewReader") && len(args) == 1:
 			if s, ok := strOf(args[0]); ok {
 				readerOver = append(readerOver, s)
@@ -142,9 +176,12 @@ func c05hex(c *Ctx, rule string) {
 			val := w.m.it.ifaceOf(w.value(g))
 			// the reference stream of the geometry (what C05.R1 holds wkb.Encode to)
 			ref := g.layout(o, func(int) string { return o }, 0)
+			raw, _ := wkbBytes(ref)
+			hexStreamBytes, hexStreamText = string(raw), hex.EncodeToString(raw)
 			// ---- Encode
 			if ev.bad == "" && ev.unk == "" {
-				w.stream, w.pos, w.problems, notes = nil, 0, nil, nil
+				w.reset(nil)
+				notes = nil
 				hexSink = nil
 				delegate.on, delegate.refuse, delegate.ref, delegate.encArgs = true, false, ref, nil
 				res, why := w.m.it.Call(enc, nil, []oval{val, ord[o]}, 0)
@@ -172,16 +209,15 @@ func c05hex(c *Ctx, rule string) {
 					case s != hexStreamText && len(notes) > 0:
 						ev.bad = what + ": " + notes[0]
 					case s != hexStreamText:
-						ev.bad = fmt.Sprintf("%s returns %q, not the lower-case hexadecimal text of the WKB bytes", what, s)
-					case !sameItems(w.stream, ref):
-						ev.bad = fmt.Sprintf("%s encodes the stream  %s  — the WKB of the geometry in that order is  %s", what, showItems(w.stream), showItems(ref))
+						ev.bad = fmt.Sprintf("%s returns %q, not the lower-case hexadecimal text %q of the WKB bytes", what, s, hexStreamText)
 					}
 				}
 			}
 			// ---- Decode
 			if dv.bad == "" && dv.unk == "" {
 				want := []oval{val}
-				w.stream, w.pos, w.problems, readerOver = append([]wkbItem{}, ref...), 0, nil, nil
+				w.reset(append([]wkbItem{}, ref...))
+				readerOver, hexDecoder = nil, false
 				delegate.on, delegate.decoded, delegate.decArgs = true, want[0], nil
 				got, why := w.m.it.Call(dec, nil, []oval{strVal(strT, hexStreamText)}, 0)
 				delegate.on = false
@@ -189,7 +225,7 @@ func c05hex(c *Ctx, rule string) {
 				what := fmt.Sprintf("hex.Decode of the text of a %s in order %s", g.tn, o)
 				for _, a := range delegate.decArgs {
 					if a != hexStreamBytes {
-						dv.bad = fmt.Sprintf("%s hands wkb.Decode %q, not the bytes DecodeString returned", what, a)
+						dv.bad = fmt.Sprintf("%s hands wkb.Decode the bytes %x, not the bytes %x the text stands for", what, a, hexStreamBytes)
 					}
 				}
 				switch {
@@ -204,8 +240,8 @@ func c05hex(c *Ctx, rule string) {
 					dv.bad = fmt.Sprintf("%s returns %s, not the geometry the bytes decode to", what, showVal(got[0]))
 				default:
 					for _, over := range readerOver {
-						if over != hexStreamBytes {
-							dv.bad = fmt.Sprintf("%s reads from %q, not from the bytes DecodeString returned", what, over)
+						if over != hexStreamBytes && !(hexDecoder && (over == hexStreamText || over == "text:"+hexStreamText)) {
+							dv.bad = fmt.Sprintf("%s reads from %q, not from the bytes the text stands for", what, over)
 						}
 					}
 				}
@@ -214,7 +250,7 @@ func c05hex(c *Ctx, rule string) {
 	}
 	// a text that is not hexadecimal
 	if dv.bad == "" && dv.unk == "" {
-		w.stream, w.pos, w.problems = nil, 0, nil
+		w.reset(nil)
 		delegate.on, delegate.decoded, delegate.decArgs = true, oNil{}, nil
 		got, why := w.m.it.Call(dec, nil, []oval{strVal(strT, "<not hexadecimal>")}, 0)
 		delegate.on = false
@@ -230,7 +266,7 @@ func c05hex(c *Ctx, rule string) {
 	if ev.bad == "" && ev.unk == "" {
 		g := w.geoms()[0]
 		val := w.m.it.ifaceOf(w.value(g))
-		w.stream, w.pos, w.problems = nil, 0, nil
+		w.reset(nil)
 		delegate.on, delegate.refuse, delegate.encArgs = true, true, nil
 		res, why := w.m.it.Call(enc, nil, []oval{val, ord["L"]}, 0)
 		delegate.on, delegate.refuse = false, false
